@@ -49,15 +49,26 @@ def str_to_num(s: str, fmt: str) -> Any[float, int]:
 
     sign, wholes, minutes, seconds = num_match.groups()
 
+    value: Any
     if minutes is None:
         # plain integer or decimal text
-        if "." in s:
-            return float(s)
-        return int(s)
+        value = float(s) if "." in s else int(s)
+    else:
+        # sexagesimal text: the sign applies to the whole magnitude
+        magnitude = (
+            float(wholes) + (float(minutes) / 60) + (float(seconds or 0) / 3600)
+        )
+        value = -magnitude if sign == "-" else magnitude
 
-    # sexagesimal text: the sign applies to the whole magnitude
-    magnitude = float(wholes) + (float(minutes) / 60) + (float(seconds or 0) / 3600)
-    return -magnitude if sign == "-" else magnitude
+    # INDI numbers are doubles: text denoting more than a double can hold
+    # (hundreds of digits) is not a usable value
+    try:
+        representable = math.isfinite(value)
+    except OverflowError:
+        representable = False
+    if not representable:
+        raise ValueError("Number out of range")
+    return value
 
 
 def num_to_str(n: Optional[float], fmt: str) -> Optional[str]:
@@ -75,7 +86,11 @@ def num_to_str(n: Optional[float], fmt: str) -> Optional[str]:
         ]
         # round once, on the magnitude, so that carries propagate (59.6" -> 1:00)
         # and the sign applies to the whole sexagesimal number
-        units = int(round(abs(n) * units_per_whole))
+        scaled = abs(n) * units_per_whole
+        if isinstance(scaled, float) and math.isinf(scaled):
+            # finite, but too large for float arithmetic: integral anyway
+            scaled = int(abs(n)) * units_per_whole
+        units = int(round(scaled))
         sign = "-" if n < 0 and units > 0 else ""
         w, rest = divmod(units, units_per_whole)
 
